@@ -46,14 +46,32 @@ struct World
 	std::vector<std::string> errors;        // protocol violations (never cleared implicitly)
 	std::vector<std::string> log; bool logging = false;
 	uint64_t next_block = 0, next_obj = 0;
+	// --- structured event log (added for C03; off by default).  Object identity = ADDRESS slot, renamed in order of
+	// first appearance since elog_reset(); block identity = allocation id.  kinds:
+	//   'A' mgr blk size | 'D' mgr blk size | 'N' slot (value ctor) | 'C' dst src (copy ctor) | 'M' dst src (move ctor)
+	//   'X' slot (dtor) | 'U' slot (read / assignment) | 'F' kind (injected failure: 0 alloc, 1 copy, 2 func)
+	struct Ev { char kind; uint64_t a, b, c; };
+	std::vector<Ev> elog; bool elogging = false; bool elog_uses = true;
+	std::map<const void*, uint64_t> slot_of; uint64_t next_slot = 0;
+	std::map<const void*, uint64_t> dead_block_id;      // id of the last freed block at an address (double free is logged against it)
+	uint64_t slot(const void* p) { auto it = slot_of.find(p); if (it != slot_of.end()) return it->second; return slot_of[p] = next_slot++; }
+	void eev(char k, uint64_t a = 0, uint64_t b = 0, uint64_t c = 0) { if (elogging) elog.push_back(Ev{ k, a, b, c }); }
+	void elog_reset() { elog.clear(); slot_of.clear(); dead_block_id.clear(); next_slot = 0; }
+	// unified failure counter: the k-th fallible step of ANY kind (alloc, copy/throwing move, functor) since arm_step throws
+	long fail_step = -1; uint64_t steps_any = 0;
+	void arm_step(long k) { fail_step = k; steps_any = 0; }
+	bool any_fails() { ++steps_any; if (fail_step >= 0 && fail_step-- == 0) { fail_step = -1; return true; } return false; }
 
 	void error(const std::string& s) { if (errors.size() < 50) errors.push_back(s); }
 	void ev(const std::string& s) { if (logging) log.push_back(s); }
 	void arm(long a, long c, long f) { fail_alloc = a; fail_copy = c; fail_func = f; steps_alloc = steps_copy = steps_func = 0; }
-	void disarm() { fail_alloc = fail_copy = fail_func = -1; }
-	void step_alloc() { ++steps_alloc; if (fail_alloc >= 0 && fail_alloc-- == 0) { fail_alloc = -1; ev("F alloc"); throw InjectedAlloc(); } }
-	void step_copy() { ++steps_copy; if (fail_copy >= 0 && fail_copy-- == 0) { fail_copy = -1; ev("F copy"); throw InjectedCopy(); } }
-	void step_func() { ++steps_func; ++n_func; if (fail_func >= 0 && fail_func-- == 0) { fail_func = -1; ev("F func"); throw InjectedFunc(); } }
+	void disarm() { fail_alloc = fail_copy = fail_func = -1; fail_step = -1; }
+	void step_alloc() { ++steps_alloc; if (fail_alloc >= 0 && fail_alloc-- == 0) { fail_alloc = -1; ev("F alloc"); eev('F', 0); throw InjectedAlloc(); }
+		if (any_fails()) { ev("F alloc"); eev('F', 0); throw InjectedAlloc(); } }
+	void step_copy() { ++steps_copy; if (fail_copy >= 0 && fail_copy-- == 0) { fail_copy = -1; ev("F copy"); eev('F', 1); throw InjectedCopy(); }
+		if (any_fails()) { ev("F copy"); eev('F', 1); throw InjectedCopy(); } }
+	void step_func() { ++steps_func; ++n_func; if (fail_func >= 0 && fail_func-- == 0) { fail_func = -1; ev("F func"); eev('F', 2); throw InjectedFunc(); }
+		if (any_fails()) { ev("F func"); eev('F', 2); throw InjectedFunc(); } }
 	size_t live_blocks() const { return blocks.size(); }
 	size_t live_objs() const { return objs.size(); }
 	size_t live_blocks_of(int mgr) const { size_t n = 0; for (auto& b : blocks) if (b.second.mgr == mgr) ++n; return n; }
@@ -76,19 +94,26 @@ inline void* raw_allocate(int mgr, size_t size)
 	w.blocks[p] = Block{ size, mgr, id };
 	++w.n_alloc; w.bytes_live += size;
 	w.ev("A m" + std::to_string(mgr) + " b" + std::to_string(id) + " " + std::to_string(size));
+	w.eev('A', uint64_t(mgr), id, size); w.dead_block_id.erase(p);
 	return p;
 }
 inline void raw_deallocate(int mgr, void* p, size_t size) noexcept
 {
 	World& w = W();
 	auto it = w.blocks.find(p);
-	if (it == w.blocks.end()) { w.error("deallocate of unknown/already freed block (size " + std::to_string(size) + ")"); return; }
+	if (it == w.blocks.end())
+	{
+		w.error("deallocate of unknown/already freed block (size " + std::to_string(size) + ")");
+		if (w.elogging) { auto d = w.dead_block_id.find(p); w.eev('D', uint64_t(mgr), d != w.dead_block_id.end() ? d->second : w.next_block++, size); }
+		return;
+	}
 	if (it->second.size != size) w.error("deallocate size " + std::to_string(size) + " != allocated size " + std::to_string(it->second.size));
 	if (it->second.mgr != mgr) w.error("deallocate through manager " + std::to_string(mgr) + " of a block from manager " + std::to_string(it->second.mgr));
 	unsigned char* base = static_cast<unsigned char*>(p) - RZ;
 	for (size_t i = 0; i < RZ; ++i)
 		if (base[i] != RZBYTE || base[RZ + it->second.size + i] != RZBYTE) { w.error("red zone overwritten around block b" + std::to_string(it->second.id)); break; }
 	w.ev("D m" + std::to_string(mgr) + " b" + std::to_string(it->second.id) + " " + std::to_string(size));
+	w.eev('D', uint64_t(mgr), it->second.id, size); if (w.elogging) w.dead_block_id[p] = it->second.id;
 	w.bytes_live -= it->second.size; ++w.n_dealloc;
 	std::memset(base, 0xDD, it->second.size + 2 * RZ);
 	w.blocks.erase(it);
@@ -173,24 +198,26 @@ class ElemT
 {
 public:
 	static const int category = C;
-	explicit ElemT(int64_t x = 0) : p(new int64_t(x)) { reg(); ++W().n_ctor; }
+	explicit ElemT(int64_t x = 0) : p(new int64_t(x)) { reg(); ++W().n_ctor; W().eev('N', eslot(this)); }
 	ElemT(const ElemT& e) : p(nullptr)
 	{
 		e.check("copy from");
 		W().step_copy();
 		p = new int64_t(*e.p); reg(); ++W().n_copy; W().ev("C o" + std::to_string(id()));
+		W().eev('C', eslot(this), eslot(&e));
 	}
 	// NTM / SMH: nothrow move.  THM: move may throw.  CPY ("copy-only"): moving IS copying (may throw, counted as copy).
 	ElemT(ElemT&& e) noexcept(C == NTM || C == SMH) : p(nullptr)
 	{
 		e.check("move from");
-		if (C == CPY) { W().step_copy(); p = new int64_t(*e.p); reg(); ++W().n_copy; return; }
+		if (C == CPY) { W().step_copy(); p = new int64_t(*e.p); reg(); ++W().n_copy; W().eev('C', eslot(this), eslot(&e)); return; }
 		if (C == THM) W().step_copy();
-		p = new int64_t(*e.p); *e.p = -1; reg(); mark_moved(&e); ++W().n_move;
+		p = new int64_t(*e.p); *e.p = -1; reg(); mark_moved(&e); ++W().n_move; W().eev('M', eslot(this), eslot(&e));
 	}
 	~ElemT() noexcept
 	{
 		World& w = W();
+		w.eev('X', eslot(this));
 		auto it = w.objs.find(this);
 		if (it == w.objs.end()) w.error("destruction of a dead/unknown element");
 		else { w.ev("X o" + std::to_string(it->second.id)); w.objs.erase(it); }
@@ -198,13 +225,13 @@ public:
 	}
 	ElemT& operator=(const ElemT& e)
 	{
-		check("copy-assign to"); e.check("copy-assign from");
+		check("copy-assign to"); e.check("copy-assign from"); euse(this); euse(&e);
 		if (this != &e) { W().step_copy(); *p = *e.p; unmark_moved(); }
 		++W().n_copy_assign; return *this;
 	}
 	ElemT& operator=(ElemT&& e) noexcept(C == NTM || C == SMH)
 	{
-		check("move-assign to"); e.check("move-assign from");
+		check("move-assign to"); e.check("move-assign from"); euse(this); euse(&e);
 		if (C == CPY) { if (this != &e) { W().step_copy(); *p = *e.p; unmark_moved(); } ++W().n_copy_assign; return *this; }
 		if (C == THM) W().step_copy();
 		if (this == &e)
@@ -215,7 +242,7 @@ public:
 		else { *p = *e.p; *e.p = -1; unmark_moved(); mark_moved(&e); }
 		++W().n_move_assign; return *this;
 	}
-	int64_t Value() const { check("read of"); return *p; }
+	int64_t Value() const { check("read of"); euse(this); return *p; }
 	bool IsMoved() const { auto it = W().objs.find(this); return it != W().objs.end() && it->second.moved; }
 	friend bool operator==(const ElemT& a, const ElemT& b) { return a.Value() == b.Value(); }
 	friend bool operator<(const ElemT& a, const ElemT& b) { return a.Value() < b.Value(); }
@@ -227,9 +254,60 @@ private:
 		w.objs[this] = Obj{ w.next_obj++, false };
 	}
 	uint64_t id() const { auto it = W().objs.find(this); return it == W().objs.end() ? ~uint64_t(0) : it->second.id; }
+	static uint64_t eslot(const void* q) { return W().elogging ? W().slot(q) : 0; }
+	static void euse(const void* q) { World& w = W(); if (w.elogging && w.elog_uses) w.eev('U', w.slot(q)); }
 	void check(const char* what) const { if (!W().objs.count(this)) W().error(std::string(what) + " a dead/unconstructed element"); }
 	static void mark_moved(const ElemT* e) { auto it = W().objs.find(e); if (it != W().objs.end()) it->second.moved = true; }
 	void unmark_moved() { auto it = W().objs.find(this); if (it != W().objs.end()) it->second.moved = false; }
+	int64_t* p;
+};
+
+// CPO: GENUINELY copy-only (no move constructor / move assignment declared at all).  Needed because momo's
+// MOMO_IS_NOTHROW_RELOCATABLE_APPENDIX (GCC/Clang) treats every type that declares a move constructor - even a
+// throwing one, i.e. ElemCpy and ElemThm - as nothrow relocatable (relocation = move + destroy inside noexcept code, an
+// injected failure there calls std::terminate).  ElemCpo is the only kit element with isNothrowRelocatable == false,
+// i.e. the one that reaches ObjectManager's copy-all / destroy-all relocation paths.  Copies may throw (step_copy).
+class ElemCpo
+{
+public:
+	static const int category = 5;
+	explicit ElemCpo(int64_t x = 0) : p(new int64_t(x)) { reg(); ++W().n_ctor; W().eev('N', eslot(this)); }
+	ElemCpo(const ElemCpo& e) : p(nullptr)
+	{
+		e.check("copy from");
+		W().step_copy();
+		p = new int64_t(*e.p); reg(); ++W().n_copy; W().ev("C o" + std::to_string(id()));
+		W().eev('C', eslot(this), eslot(&e));
+	}
+	~ElemCpo() noexcept
+	{
+		World& w = W();
+		w.eev('X', eslot(this));
+		auto it = w.objs.find(this);
+		if (it == w.objs.end()) w.error("destruction of a dead/unknown element");
+		else { w.ev("X o" + std::to_string(it->second.id)); w.objs.erase(it); }
+		++w.n_dtor; delete p; p = nullptr;
+	}
+	ElemCpo& operator=(const ElemCpo& e)
+	{
+		check("copy-assign to"); e.check("copy-assign from"); euse(this); euse(&e);
+		if (this != &e) { W().step_copy(); *p = *e.p; }
+		++W().n_copy_assign; return *this;
+	}
+	int64_t Value() const { check("read of"); euse(this); return *p; }
+	friend bool operator==(const ElemCpo& a, const ElemCpo& b) { return a.Value() == b.Value(); }
+	friend bool operator<(const ElemCpo& a, const ElemCpo& b) { return a.Value() < b.Value(); }
+private:
+	void reg()
+	{
+		World& w = W();
+		if (w.objs.count(this)) w.error("construction on top of a live element");
+		w.objs[this] = Obj{ w.next_obj++, false };
+	}
+	uint64_t id() const { auto it = W().objs.find(this); return it == W().objs.end() ? ~uint64_t(0) : it->second.id; }
+	void check(const char* what) const { if (!W().objs.count(this)) W().error(std::string(what) + " a dead/unconstructed element"); }
+	static uint64_t eslot(const void* q) { return W().elogging ? W().slot(q) : 0; }
+	static void euse(const void* q) { World& w = W(); if (w.elogging && w.elog_uses) w.eev('U', w.slot(q)); }
 	int64_t* p;
 };
 
